@@ -32,11 +32,27 @@ Theorem C19_stmt_condition_roundtrip :
 Proof. intros W R arity HN iv c H. exact (cond_rt W R arity HN iv c H). Qed.
 Print Assumptions C19_stmt_condition_roundtrip.
 
-(* NOT yet proved in general (validated by the correspondence and by the computed instances below): *)
-Definition C19_stmt_effect_roundtrip_goal : Prop :=
+(* a timed effect - assignment, :increase, :decrease; plain, conditional (`when c {...}`), universally quantified
+   (`forall (T v){...}`) and both - is read back with the same timing, target, kind and variables; arguments, value
+   and condition as their normal forms; under a forall the reader builds the condition And(c, TRUE) (norm_effect).
+   Inner steps: the interval theorem for "[ t ]", the expression theorem three times (condition, target, value),
+   the quantifier declaration lemmas of the expression layer. *)
+Theorem C19_stmt_effect_roundtrip :
   forall W R arity, names_ok W R arity ->
   forall tm e, stmt_ok R arity (SEff tm e) = true ->
   parse_stmt R (pr_stmt W (SEff tm e)) = Some (norm_stmt (SEff tm e)).
+Proof. intros W R arity HN tm e H. exact (effect_rt W R arity HN tm e H). Qed.
+Print Assumptions C19_stmt_effect_roundtrip.
+
+(* every statement of the fragment *)
+Theorem C19_stmt_roundtrip :
+  forall W R arity, names_ok W R arity ->
+  forall s, stmt_ok R arity s = true -> parse_stmt R (pr_stmt W s) = Some (norm_stmt s).
+Proof.
+  intros W R arity HN [iv c|tm e] H;
+    [exact (C19_stmt_condition_roundtrip W R arity HN iv c H)|exact (C19_stmt_effect_roundtrip W R arity HN tm e H)].
+Qed.
+Print Assumptions C19_stmt_roundtrip.
 
 (* concrete instances over the naming exW / exR of Props/C19_expr.v (names_ok proved there: ex_names_ok) *)
 Definition ex_tm : timing := {| tm_anchor := AEnd; tm_delay := Q2Qc (Qmake (-7) 3) |}.
@@ -73,6 +89,6 @@ Example C19_stmt_roundtrip_nonvacuous :
   /\ parse_stmt exR (pr_stmt exW ex_cond) = Some (norm_stmt ex_cond).
 Proof.
   split; [exact ex_names_ok|]. split; [vm_compute; reflexivity|].
-  apply (C19_stmt_condition_roundtrip exW exR ex_arity ex_names_ok). vm_compute. reflexivity.
+  apply (C19_stmt_roundtrip exW exR ex_arity ex_names_ok). vm_compute. reflexivity.
 Qed.
 Print Assumptions C19_stmt_roundtrip_nonvacuous.
